@@ -26,7 +26,25 @@ static int combination(const std::string &ob, bool kf)
         if (kf) { ws.push_back({mul(I, x), {{x, zero}}}); ws.push_back({mul(mul(I, x), y), {{x, integer(1)}, {y, zero}}}); } }
     else if (ob.find("RealVisitor.Add") != std::string::npos) { ws.push_back({add(x, mul(y, z)), {{x, integer(1)}, {y, integer(2)}, {z, integer(3)}}});
         if (kf) { ws.push_back({add(x, sub(mul(I, y), mul(I, z))), {{x, integer(2)}, {y, integer(1)}, {z, integer(1)}}}); ws.push_back({add(x, mul(I, y)), {{x, integer(2)}, {y, zero}}}); } }
-    else if (ob.find("PositiveVisitor.Add") != std::string::npos) { ws.push_back({add(x, y), {{x, integer(1)}, {y, integer(-2)}}}); ws.push_back({add(mul(x, x), integer(1)), {{x, zero}}}); }
+    else if (ob.find("PositiveVisitor.Add") != std::string::npos || ob.find("IntegerVisitor") != std::string::npos) {
+        // non-strict sign assumptions / mixed integer-real knowledge
+        set_basic s2; s2.insert(Le(x, zero)); s2.insert(Le(y, zero)); s2.insert(contains(z, reals()));
+        Assumptions a2(s2);
+        RCP<const Basic> e = sub(mul(minus_one, x), y), v0 = e->subs({{x, zero}, {y, zero}});
+        tribool q = is_positive(*e, &a2);
+        std::cout << "is_positive(" << e->__str__() << " | x <= 0, y <= 0) = " << (is_true(q) ? "true" : is_false(q) ? "false" : "indeterminate") << "; at x=0 y=0 the value is " << v0->__str__() << "\n";
+        if (is_true(q)) { std::cout << "REPRODUCED: the definite answer is wrong for an assignment that satisfies the assumptions\n"; bad = 1; }
+        RCP<const Symbol> n = symbol("n"), u = symbol("u");
+        set_basic s3; s3.insert(contains(n, integers())); s3.insert(contains(u, reals()));
+        Assumptions a3(s3);
+        for (auto &ee : {add(n, u), add(u, n), add(add(n, u), x)}) {
+            tribool qi = is_integer(*ee, &a3);
+            std::cout << "is_integer(" << ee->__str__() << " | n integer, u real) = " << (is_true(qi) ? "true" : is_false(qi) ? "false" : "indeterminate") << "\n";
+            if (is_true(qi)) { std::cout << "REPRODUCED: u = 1/2, n = 0 gives a non-integer\n"; bad = 1; }
+        }
+        if (bad || ob.find("IntegerVisitor") != std::string::npos) return bad;
+    }
+    if (ob.find("PositiveVisitor.Add") != std::string::npos) { ws.push_back({add(x, y), {{x, integer(1)}, {y, integer(-2)}}}); ws.push_back({add(mul(x, x), integer(1)), {{x, zero}}}); }
     else return 2;
     for (auto &w : ws) {
         RCP<const Basic> val = w.e->subs(w.sub);
@@ -43,7 +61,8 @@ int main(int argc, char **argv)
 {
     if (argc < 2) return 3;
     Args a = parse_args(argc, argv);
-    if (std::string(argv[1]).find("Visitor.Add") != std::string::npos || std::string(argv[1]).find("Visitor.Mul") != std::string::npos) return combination(argv[1], has(a, "kf"));
+    if (std::string(argv[1]).find(".predicates.") != std::string::npos) return predicates(a);
+    if (std::string(argv[1]).find("Visitor.Add") != std::string::npos || std::string(argv[1]).find("Visitor.Mul") != std::string::npos || std::string(argv[1]).find("Visitor.AddMul") != std::string::npos) return combination(argv[1], has(a, "kf"));
     if (!has(a, "a_type")) return 3;
     RCP<const Basic> x = ghost_obj(a, "a");
     long c = int_of(a, "a_cls"), v = int_of(a, "a_v");
